@@ -288,3 +288,61 @@ def closure(m: SidModel, ents):
                 seen.add(s)
                 out.append((tt, ff))
     return out
+
+
+@st.composite
+def gt_search(draw, m: SidModel, t: str, fields: Dict[str, str]):
+    """A search with '>' at one position (optionally a second one further right), '*' / alias / '**' elsewhere."""
+    keys = m.keys(t)
+    segs = [fields[k] for k in keys]
+    labels = []
+    i = draw(st.integers(0, len(keys) - 1))
+    via_query = draw(st.integers(0, 9)) < 2 and i >= 1
+    for j in range(len(keys)):
+        if j == i:
+            continue
+        r = draw(st.integers(0, 99))
+        if r < 35:
+            segs[j] = "*"
+        elif r < 40:
+            spec = m.specs[(t, keys[j])]
+            segs[j] = segs[j] + "," + draw(concrete_value(spec, digits_dense=True))
+            labels.append("comma")
+    if i < len(keys) - 1 and draw(st.integers(0, 9)) < 2:
+        j = draw(st.integers(i + 1, len(keys) - 1))
+        segs[j] = ">"
+        labels.append("second-gt")
+    aliases = all_aliases(m)
+    if aliases and i != len(keys) - 1 and segs[-1] != ">" and draw(st.integers(0, 9)) < 2:
+        al = [a for a in aliases if m.accepts(t, [fields[k] for k in keys[:-1]] + [a])]
+        if al:
+            segs[-1] = draw(st.sampled_from(al))
+            labels.append("alias")
+    q = ""
+    if via_query:
+        segs[i] = "*"
+        q = f"?{keys[i]}=>"
+        labels.append("gt-via-filter")
+    else:
+        segs[i] = ">"
+    # '**' on a span that does not contain the '>' position(s)
+    if draw(st.integers(0, 9)) < 2 and m.is_leaf_type(t):
+        gts = [j for j, s in enumerate(segs) if s == ">"] or [i]
+        lo, hi = min(gts), max(gts)
+        if via_query:
+            a = draw(st.integers(1, len(segs)))
+            b = draw(st.integers(a, len(segs)))
+            segs = segs[:a] + ["**"] + segs[b:]
+            labels.append("dstar")
+        elif hi < len(segs) - 1 and draw(st.booleans()):
+            a = draw(st.integers(hi + 1, len(segs)))
+            b = draw(st.integers(a, len(segs)))
+            segs = segs[:a] + ["**"] + segs[b:]
+            labels.append("dstar-right")
+        elif lo >= 2:
+            a = draw(st.integers(1, lo))
+            b = draw(st.integers(a, lo))
+            segs = segs[:a] + ["**"] + segs[b:]
+            labels.append("dstar-left")
+    labels.append(f"gt-at:{i}")
+    return {"s": "/".join(segs) + q, "labels": labels, "gt_index": i}
